@@ -381,6 +381,14 @@ func parseRDNSS(d rawRDNSS, maxInterval time.Duration) (*plugin.RDNSS, error) {
 			return nil, fmt.Errorf("string %q is not an IPv6 address", s)
 		}
 
+		// A zone only has meaning on this machine and cannot be carried in an
+		// RDNSS option. Left in place it also defeats the checks below: "::%eth0"
+		// is not the unspecified address, and the same address in two zones is
+		// not a duplicate until both are stripped on the wire.
+		if ip.Zone() != "" {
+			return nil, fmt.Errorf("server %q must not have a zone", s)
+		}
+
 		// If :: is present, don't add it to the slice but do set Auto to true
 		// so a server address can be automatically chosen at runtime. The
 		// remaining server addresses will be set statically.
